@@ -160,6 +160,22 @@ class ArmEval:
             if thc.startswith("return Err(") and e.get("else") is None:
                 self.assumed_false.append(H.canon(e["cond"]))
                 return
+            if e.get("else") is not None:
+                elc = H.canon(H.peel(e["else"]))
+                if elc.startswith("return Err("):
+                    # `if ok { .. } else { return Err(..) }`: the rest runs under the condition; what is rejected is its negation
+                    cc = H.peel(e["cond"])
+                    neg = {"Lt": "Ge", "Le": "Gt", "Gt": "Le", "Ge": "Lt", "Eq": "Ne", "Ne": "Eq"}
+                    if cc.get("k") == "Binary" and cc.get("op") in neg:
+                        self.assumed_false.append(H.canon(dict(cc, op=neg[cc["op"]])))
+                    else:
+                        self.assumed_false.append("!" + H.canon(e["cond"]))
+                    self.stmt({"k": "ExprStmt", "e": th})
+                    return
+                if thc.startswith("return Err("):
+                    self.assumed_false.append(H.canon(e["cond"]))
+                    self.stmt({"k": "ExprStmt", "e": H.peel(e["else"])})
+                    return
             # branches that only update the accumulators: merge the two outcomes under the condition
             try:
                 cnd = self.ex(e["cond"])
@@ -663,7 +679,17 @@ def backref_validity(run, ctx):
             if v in ("Backref", "BackrefExistsCondition"):
                 ifs = [nd for nd in H.walk(arm["body"]) if nd.get("k") == "If" and H.canon(nd["then"]).startswith("return Err(")]
                 g = [p_["name"] for p_ in H.walk(arm["pat"]) if p_.get("k") == "Binding"]
-                conds[v] = (__import__("re").sub(r"(?<![\w.])%s(?!\w)" % __import__("re").escape(g[0]), "G", H.canon(ifs[0]["cond"])) if ifs and g else None, H.canon(ifs[0]["then"]) if ifs else None, H.where(arm))
+                rej, errv = (H.canon(ifs[0]["cond"]), H.canon(ifs[0]["then"])) if ifs else (None, None)
+                if not ifs:
+                    # `if ok { .. } else { return Err(..) }`: what is rejected is the negation of the condition
+                    ifs2 = [nd for nd in H.walk(arm["body"]) if nd.get("k") == "If" and nd.get("else") is not None and H.canon(H.peel(nd["else"])).startswith("return Err(")]
+                    if ifs2:
+                        cc = H.peel(ifs2[0]["cond"])
+                        neg = {"Lt": "Ge", "Le": "Gt", "Gt": "Le", "Ge": "Lt", "Eq": "Ne", "Ne": "Eq"}
+                        if cc.get("k") == "Binary" and cc.get("op") in neg:
+                            rej, errv = H.canon(dict(cc, op=neg[cc["op"]])), H.canon(H.peel(ifs2[0]["else"]))
+                            ifs = ifs2
+                conds[v] = (__import__("re").sub(r"(?<![\w.])%s(?!\w)" % __import__("re").escape(g[0]), "G", rej) if ifs and g else None, errv if ifs else None, H.where(arm))
     for v in ("Backref", "BackrefExistsCondition"):
         if v not in conds or conds[v][0] is None:
             run.violation(fam, label, "no-check/" + v, conds.get(v, (None, None, H.where(fn)))[2], "Expr::%s: no validity check of the referenced group against the groups opened so far" % v)
